@@ -84,6 +84,7 @@ def run(tier):
     rnd = random.Random(common.seed())
     try:
         kernel(eng, obl, out)
+        c04.check_wcb_kernel(eng, obl, out)  # push_bounds_for_field adds the field type iff it mentions a parameter; nothing collected is dropped
         eng.opaque_local = set(c04.OPAQUE)
         for spec in c04.BUILDERS:
             label, fname, fam, trait, skind, roots = spec
